@@ -1085,7 +1085,9 @@ def analyze(ctx, want):
         if v == "Ok":
             # offset is itself a line start at index i: line i+1, column 1 (+ offset - start = 0)
             ok_line = ll == {idx: 1} and lc == 1
-            ok_col = S.vstr(col) == "(saturating_sub(offset, *&self.line_offsets.%s) + 1)" % S.vstr(idx) or col_ok(col, idx, 0)
+            # (the element found equals the offset — that is what Ok means for a search for the offset, checked above — so the
+            # difference is 0 and the column is the constant 1)
+            ok_col = S.vstr(col) == "(saturating_sub(offset, *&self.line_offsets.%s) + 1)" % S.vstr(idx) or col_ok(col, idx, 0) or col == ("int", 1)
         else:
             ok_line = ll == {idx: 1} and lc == 0
             ok_col = col_ok(col, idx, -1)
@@ -1177,6 +1179,38 @@ def recorded_line_starts(ex, p):
     return out
 
 
+def _last_of_prefix(y):
+    """`v[..e].last()` (its Some payload) is the element `v[e - 1]`: rewritten into that indexed read"""
+    t = y
+    n = 0
+    while t[0] == "deref" and n < 4:
+        t = t[1]
+        n += 1
+    if not (t[0] == "field" and t[2] == "0" and t[1][0] == "downcast" and t[1][2] == "Some"):
+        return y
+    o = t[1][1]
+    while o[0] == "app" and re.search(r"Option::<.*>::(copied|cloned)$|^Option::(copied|cloned)$", str(o[1])) and len(o[2]) == 1:
+        o = o[2][0]
+    if not (o[0] == "app" and re.search(r"(^|::|>)last$", str(o[1])) and len(o[2]) == 1):
+        return y
+    view = o[2][0]
+    if view[0] != "ref" or view[1][0] != "loc" or not view[1][2]:
+        return y
+    base, steps = view[1][1], view[1][2]
+    st = steps[-1]
+    if st[0] != "i":
+        return y
+    rng = st[1]
+    end = None
+    if rng[0] == "adt" and str(rng[1]).endswith("ops::RangeTo") and len(rng[3]) == 1:
+        end = rng[3][0]
+    elif rng[0] == "tuple" and len(rng[1]) == 1:
+        end = rng[1][0]
+    if end is None:
+        return y
+    return ("deref", ("ref", ("loc", base, tuple(steps[:-1]) + (("i", ("sub", end, ("int", 1))),)), False))
+
+
 def col_ok(col, idx, delta):
     """col == saturating_sub(offset, line_offsets[idx+delta]) + 1"""
     lin, c = S.linear(col)
@@ -1188,6 +1222,7 @@ def col_ok(col, idx, delta):
     x, y = a[2]
     if x != ("sym", "offset"):
         return False
+    y = _last_of_prefix(y)
     s = S.vstr(y)
     if "self.line_offsets" not in s:
         return False
